@@ -52,6 +52,8 @@ def problem(cfg, rng, pick=None):
     # a region cut out of a larger image: the axes do not start at 0; the particle moves with it
     # (x offset positive, y offset negative: fitted coordinates of both signs)
     off = (3.1, -4.3) if cfg.get("origin") == "offset" else (0.0, 0.0)
+    if cfg.get("origin") == "particle_on_axis":
+        off = (-truth["x"], -4.3)        # x of the particle is exactly 0: a fitted parameter that starts at 0
     truth["x"] += off[0]
     truth["y"] += off[1]
     pert = {k: (1.0 if cfg["start"] == "truth" else 1.0 + rng.choice([-1, 1]) * rng.uniform(0.005, 0.02)) for k in truth}
@@ -127,8 +129,14 @@ def fit_event(cfg, model, data, strat, want, first=None):
     pars = res.parameters
     ev = {"event": "Fit", "cfg": "%(strategy)s/%(data)s/%(start)s/%(theory)s/%(origin)s" % cfg}
     ev["names_ok"] = bool(list(pars) == list(model.parameters))
-    ev["mb_param_error"] = quant.mb(max(abs(float(pars[k]) - want[k]) / abs(want[k]) for k in want)) \
+    # (a generating value of exactly 0 has no relative error, and the optimisers stop earlier there - 1e-6 .. 1e-5 of a pixel: it
+    # must be found to 3e-3 microns, a hundredth of a pixel)
+    ev["mb_param_error"] = quant.mb(max(abs(float(pars[k]) - want[k]) / (abs(want[k]) or 3.2e3) for k in want)) \
         if ev["names_ok"] else 20000
+    if cfg.get("origin") == "particle_on_axis" and ev["names_ok"]:
+        # with one parameter at 0 the optimisers stop a little earlier for all of them (1e-6 instead of 1e-9 .. 1e-12):
+        # this class is held to 1e-5
+        ev["mb_param_error"] -= 1000
     guess = model.initial_guess
     with warnings.catch_warnings():
         warnings.simplefilter("ignore")
@@ -430,6 +438,8 @@ def run(ctx):
             # half of the configurations, every (strategy, start) with two of the four (data, theory) pairs
             def keep(c):
                 starts = ["truth", "nearby", "on_lower", "on_upper"]
+                if c["origin"] == "particle_on_axis":       # a start value of exactly 0: the perturbed starts, plain Mie
+                    return c["start"] == "nearby" and c["theory"] == "mie"
                 return ((c["data"] == "subset") + (c["theory"] != "mie") + ctx.seed) % 2 == 0 and \
                     ((c["origin"] == "offset") + (c["strategy"] == "scipy") + starts.index(c["start"]) + ctx.seed // 2) % 2 == 0
             inits = [s for s in inits if keep(g.states[s]["cfg"])]
@@ -476,7 +486,12 @@ def run(ctx):
                                 stack.append((e[3], res, p, clone(res), loaded))
                             elif e[1] == "Load":
                                 ld = hp.load(path)
-                                traces.append([reload_event(cfg, snap, ld, model)])
+                                # what was loaded is a result of its own: the file may go away (or be written again)
+                                os.rename(path, path + ".moved")
+                                try:
+                                    traces.append([reload_event(cfg, snap, ld, model)])
+                                finally:
+                                    os.rename(path + ".moved", path)
                                 traces[-1][0]["cached_at_save"] = sorted(st["loaded"][1])
                                 stack.append((e[3], res, path, snap, ld))
                         ctx.trace_ok()
